@@ -25,6 +25,7 @@ use crate::{Fields, nums_of};
 pub fn lookup(name: &str) -> Option<Engine> {
     match name {
         "dec3" => Some(dec3),
+        "sized3" => Some(sized3),
         "enc3" => Some(enc3),
         "varint" => Some(varint),
         _ => None,
@@ -332,6 +333,16 @@ fn state_tag(codec: &Codec) -> u64 {
 
 /// case: [max_size, min_chunk] ; [cut positions] ; [stream bytes]
 fn dec3(c: &Fields) -> Fields {
+    dec3_impl(c, false)
+}
+
+/// engine "sized3" (13): the same run, but every item is reported as what the in-flight limiter sees of it
+/// (`impl SizedRequest for Decoded`): kind (1 packet, 2 publish, 3 chunk), size(), is_publish(), is_chunk()
+fn sized3(c: &Fields) -> Fields {
+    dec3_impl(c, true)
+}
+
+fn dec3_impl(c: &Fields, sized: bool) -> Fields {
     if c.len() != 3 || c[0].len() != 2 || c[0][0] > U32MAX || c[0][1] > U32MAX {
         return bad();
     }
@@ -364,7 +375,18 @@ fn dec3(c: &Fields) -> Fields {
                 return vec![vec![95]]; // decode keeps producing items without consuming input
             }
             guard -= 1;
-            match codec.decode(&mut buf) {
+            let res = codec.decode(&mut buf);
+            if sized && let Ok(Some(item)) = &res {
+                let (size, is_publish, is_chunk) = ntex_mqtt::verif_hooks::sized_v3(item);
+                let kind = match item {
+                    Decoded::Packet(..) => 1,
+                    Decoded::Publish(..) => 2,
+                    Decoded::PayloadChunk(..) => 3,
+                };
+                out.push(vec![kind, u64::from(size), u64::from(is_publish), u64::from(is_chunk)]);
+                continue;
+            }
+            match res {
                 Ok(Some(Decoded::Packet(pkt, rl))) => {
                     let mut f = vec![1, u64::from(rl)];
                     dump_packet(&pkt, &mut f);
